@@ -30,8 +30,8 @@ var specProtocols = map[string]int64{
 
 func propC09() *Property {
 	return &Property{
-		ID:      "C09",
-		Decides: "agreement of the code with the published protocol, with the document (re-read on every run) and a frozen transcription as oracles external to the code: R09.1 the three metadata layouts — the (offset,width,byte order,field) tables extracted from each Marshal and each Unmarshal agree with each other and with the document; R09.2 protocol numbering; R09.3 key derivation (PBKDF2-SHA256, 64 iterations, 32-byte key, salt = SHA-256 of the big-endian uint64 unix time rounded to 2 minutes, hashed password = SHA-256(password || 0x00 || username)); R09.4 user hint (first 4 bytes of SHA-256(username || nonce[:16]) into the last 4 nonce bytes, same constants in writer and reader); R09.5 TCP nonce progression (big-endian increment over the whole nonce, once per encryption after the first; Encrypt and Decrypt symmetric) and UDP nonce sharing (payload sealed with the datagram's metadata nonce); R09.7 the 1024-byte session payload limit in writer and reader; R09.8 low-entropy parameter table, chunk length, rotation validity set and rotation direction, UDP-associate frame.; R09.9 payload carried by any session or data segment is delivered: the reader hands out the payload of every dequeued segment (shared with R01.7); the protocol allows a payload on the open session response; R09.10 the time salt is the documented rounded-to-nearest two-minute slot with its two neighbours, and the key cache uses the same rounding, so a cached key set is never served for another slot (R08.1)",
+		ID:         "C09",
+		Decides:    "agreement of the code with the published protocol, with the document (re-read on every run) and a frozen transcription as oracles external to the code: R09.1 the three metadata layouts — the (offset,width,byte order,field) tables extracted from each Marshal and each Unmarshal agree with each other and with the document; R09.2 protocol numbering; R09.3 key derivation (PBKDF2-SHA256, 64 iterations, 32-byte key, salt = SHA-256 of the big-endian uint64 unix time rounded to 2 minutes, hashed password = SHA-256(password || 0x00 || username)); R09.4 user hint (first 4 bytes of SHA-256(username || nonce[:16]) into the last 4 nonce bytes, same constants in writer and reader); R09.5 TCP nonce progression (big-endian increment over the whole nonce, once per encryption after the first; Encrypt and Decrypt symmetric) and UDP nonce sharing (payload sealed with the datagram's metadata nonce); R09.7 the 1024-byte session payload limit in writer and reader; R09.8 low-entropy parameter table, chunk length, rotation validity set and rotation direction, UDP-associate frame.; R09.9 payload carried by any session or data segment is delivered: the reader hands out the payload of every dequeued segment (shared with R01.7); the protocol allows a payload on the open session response; R09.10 the time salt is the documented rounded-to-nearest two-minute slot with its two neighbours, and the key cache uses the same rounding, so a cached key set is never served for another slot (R08.1)",
 		NotDecided: "that emitted values are right beyond where they are placed and how they are derived; the AEAD itself (library); the segment assembly order on the wire beyond the nonce/metadata/payload sharing (R09.6 of the design was not built); interop with other releases at run time.",
 		Rules: []Rule{
 			{ID: "R09.1", Floor: 6, Text: "metadata layouts: Marshal table == Unmarshal table == document table (offset/width), all multi-byte fields big endian, buffer length == MetadataLength == 32", Run: r09_1},
@@ -364,34 +364,34 @@ func r09_4(c *RC) {
 		sum, prefix16, out4, tail4 := false, false, false, false
 		// (the hash may be computed in a helper shared by both functions)
 		for _, hf := range withHelpers(p, fn, 2) {
-		instrs(hf, func(_ *ssa.BasicBlock, _ int, in ssa.Instruction) {
-			switch x := in.(type) {
-			case *ssa.Call:
-				if calleeID(x) == "crypto/sha256.Sum256" {
-					sum = true
-				}
-			case *ssa.Slice:
-				hi, hok := int64(-1), false
-				if x.High != nil {
-					hi, hok = constInt(x.High)
-				}
-				if x.Low == nil && hok && hi == 16 {
-					prefix16 = true
-				}
-				if x.Low == nil && hok && hi == 4 {
-					out4 = true
-				}
-				if x.Low != nil {
-					if bo, ok := x.Low.(*ssa.BinOp); ok && bo.Op == token.SUB {
-						if k, ok := constInt(bo.Y); ok && k == 4 {
-							if cl, ok := bo.X.(*ssa.Call); ok && calleeNameAny(cl) == "len" {
-								tail4 = true
+			instrs(hf, func(_ *ssa.BasicBlock, _ int, in ssa.Instruction) {
+				switch x := in.(type) {
+				case *ssa.Call:
+					if calleeID(x) == "crypto/sha256.Sum256" {
+						sum = true
+					}
+				case *ssa.Slice:
+					hi, hok := int64(-1), false
+					if x.High != nil {
+						hi, hok = constInt(x.High)
+					}
+					if x.Low == nil && hok && hi == 16 {
+						prefix16 = true
+					}
+					if x.Low == nil && hok && hi == 4 {
+						out4 = true
+					}
+					if x.Low != nil {
+						if bo, ok := x.Low.(*ssa.BinOp); ok && bo.Op == token.SUB {
+							if k, ok := constInt(bo.Y); ok && k == 4 {
+								if cl, ok := bo.X.(*ssa.Call); ok && calleeNameAny(cl) == "len" {
+									tail4 = true
+								}
 							}
 						}
 					}
 				}
-			}
-		})
+			})
 		}
 		key := "hint@" + fname
 		if sum && prefix16 && out4 && tail4 {
